@@ -52,6 +52,22 @@ CHECKS["C10"] = {
             "linear reproduction or order independence (values, not shape).",
     "note": "first/last element subscripts [0] and [n-1] are the MIN/MAX sources; constants such as 0.0/INFINITY are neutral",
 }
+CHECKS["C02"] = {
+    "technique": "static loop-shape classification over natural loops of the solve call graph (back edges, every-cycle cut checks) + recursion check",
+    "text": "Decides only the termination clause ('the iteration limit bounds the work: the call always returns'): every loop reachable from vnacal_new_solve is "
+            "counted, a list/chain walk, an iterator loop, or bounded by vn_iteration_limit with the counter increment and the limit test on every cycle "
+            "(a continue that bypasses the test, a counter reset, or a dropped test is reported); no unbounded recursion. Does not decide convergence to the true "
+            "parameters, accuracy versus tolerances or TRL root selection.",
+    "note": "linked lists are assumed acyclic; loops of unrecognised shape are reported as unclassified, not as violations",
+}
+CHECKS["C20"] = {
+    "technique": "static must-pass-through (dominance) of the equations<unknowns test before every solve and every equation-sized VLA; failure dataflow on its edge",
+    "text": "Decides that in the error-term solvers every linear-solve call and every variable-length array sized by the equation count is dominated by an "
+            "equations < unknowns test whose edge ends in a VNAERR_MATH failure, that a failing frequency yields -1 (no success code left in rc, no dropped "
+            "callee failure), that solver results are checked, and that vn_calibration is replaced only on the success path. Does not decide identifiability of "
+            "arbitrary standard sets (needs values).",
+    "note": "equation count = data dependence on vns_equation_count/vn_equations, unknown count = dependence on vl_t_terms (followed through locals and call-site arguments)",
+}
 NOT_APPLICABLE = {
     "C14": "YAML fidelity of arbitrary scalars/keys depends on libyaml's emitter/scanner behaviour on run-time strings; no clause is visible in libvna's source shape (DESIGN.md section 3, C14)",
 }
